@@ -436,6 +436,20 @@ def _v5(ctx, rep, vi: Func, vo: Func):
         if isinstance(st, ast.If) and st.body and isinstance(st.body[-1], ast.Raise) and not st.orelse:
             igs.append(st)
     texts = [unparse(g.test).replace(" ", "") for g in igs]
+    # `if A or B: raise` rejects what `if A: raise` and `if B: raise` reject: the disjuncts count as guards of their own (same position)
+    split = []
+    for gi, g in enumerate(igs):
+        ds = g.test.values if isinstance(g.test, ast.BoolOp) and isinstance(g.test.op, ast.Or) else [g.test]
+        for d_ in ds:
+            split.append((gi, unparse(d_).replace(" ", "")))
+    stexts = [t for _, t in split]
+    if "item_index<0" in stexts and "item_index>=len(objdict[item_name])" in stexts:
+        gi = max(i_ for i_, t in split if t in ("item_index<0", "item_index>=len(objdict[item_name])"))
+        split.append((gi, "item_index<0oritem_index>=len(objdict[item_name])"))
+    spos = {}
+    for gi, t in split:
+        spos.setdefault(t, gi)
+    texts_all = list(dict.fromkeys(texts + [t for _, t in split]))
     need = {
         "item is a tuple": ["type(item)!=tuple", "notisinstance(item,tuple)"],
         "item has two components": ["len(item)!=2"],
@@ -444,12 +458,12 @@ def _v5(ctx, rep, vi: Func, vo: Func):
         "name is one of the four kinds": ["item_namenotin['state','povm','gate','mprocess']"],
         "index in range": ["not0<=item_index<len(objdict[item_name])", "item_index<0oritem_index>=len(objdict[item_name])"],
     }
-    missing = [k for k, alts in need.items() if not any(a in texts for a in alts)]
+    missing = [k for k, alts in need.items() if not any(a in texts_all for a in alts)]
     # order: type of item before len/unpack; kinds before lookup
-    pos = {k: min((texts.index(a) for a in alts if a in texts), default=None) for k, alts in need.items()}
+    pos = {k: min((spos[a] for a in alts if a in spos), default=None) for k, alts in need.items()}
     ordered = all(pos[a] is not None and pos[b] is not None and pos[a] < pos[b] for a, b in
                   (("item is a tuple", "item has two components"), ("item has two components", "name is str"),
-                   ("name is one of the four kinds", "index in range"))) if not missing else False
+                   ("item has two components", "index is int"), ("name is one of the four kinds", "index in range"))) if not missing else False
     if missing:
         rep.violation("V5", vi, "item guards", "missing rule(s): %s (guards found: %s)" % (missing, texts), node=vi.node)
     elif not ordered:
